@@ -33,6 +33,7 @@ type Obligation struct {
 	Choices []Choice
 	Trace   []string
 	Folded  bool // decided by constant folding
+	First   bool // no cross-solver agreement required in the thorough tier (vr.FirstAnswer)
 	negCond *Term
 	members []*Obligation
 	RawScript string
@@ -90,6 +91,7 @@ type Config struct {
 	MaxPaths    int
 	AllocLimit  int64
 	MakeSplit   int // symbolic make lengths are split into 0..MakeSplit
+	FirstAnswer bool // thorough tier: the first definitive back-end answer decides (no cross-check)
 }
 
 type Exec struct {
@@ -259,7 +261,7 @@ func (x *Exec) closeFeas() {
 
 func (x *Exec) addObl(st *State, kind, label, site string, cond *Term) *Obligation {
 	o := &Obligation{Harness: x.harness, Kind: kind, Label: label, Site: site, PC: st.pcList(), Cond: cond,
-		Inputs: st.inputs[:len(st.inputs):len(st.inputs)], Choices: st.choices[:len(st.choices):len(st.choices)], Trace: st.trace[:len(st.trace):len(st.trace)]}
+		Inputs: st.inputs[:len(st.inputs):len(st.inputs)], Choices: st.choices[:len(st.choices):len(st.choices)], Trace: st.trace[:len(st.trace):len(st.trace)], First: x.cfg.FirstAnswer}
 	if cond.IsTrue() && kind != "reach" {
 		o.Folded = true
 		o.Status = "folded-true"
